@@ -55,18 +55,20 @@ func tokensOf(s string) []string {
 	}
 	return out
 }
+
 var sortRe = regexp.MustCompile(`\b(E_[A-Za-z0-9]+|Str)\b`)
 
 // BuildQuery renders the obligation as an SMT-LIB script (without check-sat/get-model tail).
 func (o *Obligation) BuildQuery() string {
 	x := o.prog
 	var asserts []string
-	for _, h := range o.Hyps {
+	for _, h := range relevantHyps(o.Hyps, o.Goal) {
 		asserts = append(asserts, h.S)
 	}
 	goal := o.Goal.S
 	// global facts
 	var facts []string
+	var extraDecl []string
 	body := strings.Join(asserts, "\n") + "\n" + goal
 	used := map[string]bool{}
 	addTokens := func(s string) {
@@ -124,9 +126,24 @@ func (o *Obligation) BuildQuery() string {
 		if used["rtype_size"] {
 			facts = append(facts, "(forall ((r!s Int)) (> (rtype_size r!s) 0))")
 		}
+		if used["rtype_kind"] {
+			for _, id := range ids {
+				if b, ok := x.rtypeUsed[id].Underlying().(*types.Basic); ok {
+					if k, ok := reflectKind[b.Kind()]; ok {
+						name := fmt.Sprintf("lit_E_uint_%d", k)
+						if !used[name] {
+							extraDecl = append(extraDecl, fmt.Sprintf("(declare-fun %s () E_uint)", name))
+							used[name] = true
+						}
+						facts = append(facts, fmt.Sprintf("(= (rtype_kind %d) %s)", id, name))
+					}
+				}
+			}
+		}
 	}
 	var sb strings.Builder
 	sorts := map[string]bool{}
+	_ = extraDecl
 	all := body
 	for _, n := range x.decls.order {
 		if used[n] {
@@ -157,6 +174,34 @@ func (o *Obligation) BuildQuery() string {
 		if used[n] {
 			sb.WriteString(x.decls.decl[n])
 			sb.WriteByte('\n')
+		}
+	}
+	// literal constants of one abstract sort denote pairwise different values
+	litsBySort := map[string][]string{}
+	for t := range used {
+		if strings.HasPrefix(t, "lit_E_") {
+			rest := t[len("lit_"):]
+			if i := strings.Index(rest[2:], "_"); i >= 0 {
+				so := rest[:i+2]
+				litsBySort[so] = append(litsBySort[so], t)
+			}
+		}
+	}
+	var lsorts []string
+	for so := range litsBySort {
+		lsorts = append(lsorts, so)
+	}
+	sort.Strings(lsorts)
+	for _, so := range lsorts {
+		ls := litsBySort[so]
+		if len(ls) > 1 {
+			sort.Strings(ls)
+			facts = append(facts, "(distinct "+strings.Join(ls, " ")+")")
+		}
+	}
+	for _, d := range extraDecl {
+		if !strings.Contains(sb.String(), d) {
+			sb.WriteString(d + "\n")
 		}
 	}
 	for _, f := range facts {
@@ -216,14 +261,14 @@ type solverResult struct {
 }
 
 type Solvers struct {
-	dir     string
-	timeout time.Duration
-	mu      sync.Mutex
-	cache   map[string]*cacheEntry
-	n       int
-	Stats   map[string]*solverStat
-	all     bool // thorough: run every solver and compare
-	Disagree []string
+	dir           string
+	timeout       time.Duration
+	mu            sync.Mutex
+	cache         map[string]*cacheEntry
+	n             int
+	Stats         map[string]*solverStat
+	all           bool // thorough: run every solver and compare
+	Disagree      []string
 	Unique, Total int
 }
 
@@ -374,7 +419,6 @@ func (s *Solvers) SolveCached(q string) (solverResult, bool) {
 	e.once.Do(func() { e.res = s.Solve(q, false) })
 	return e.res, hit
 }
-
 
 // SolveBatch decides many queries with few solver processes: unique (canonical) queries are
 // grouped, each group runs in one z3 process with (reset) between queries; whatever stays
@@ -596,4 +640,79 @@ func (s *Solvers) spawn(args []string, timeout time.Duration) string {
 	defer cancel()
 	out, _ := exec.CommandContext(ctx, args[0], args[1:]...).CombinedOutput()
 	return string(out)
+}
+
+// reflect.Kind values of the basic kinds
+var reflectKind = map[types.BasicKind]int{
+	types.Bool: 1, types.Int: 2, types.Int8: 3, types.Int16: 4, types.Int32: 5, types.Int64: 6,
+	types.Uint: 7, types.Uint8: 8, types.Uint16: 9, types.Uint32: 10, types.Uint64: 11, types.Uintptr: 12,
+	types.Float32: 13, types.Float64: 14, types.Complex64: 15, types.Complex128: 16, types.String: 24, types.UnsafePointer: 26,
+}
+
+var havocSymRe = regexp.MustCompile(`[^\s()]+@h[0-9]+_[0-9]+`)
+
+// relevantHyps drops hypotheses that only constrain havoc-fresh heap constants (X@h<event>_<k>)
+// which neither the goal nor any kept hypothesis mentions: they are frame facts about memory the
+// obligation does not talk about. Every other hypothesis is kept.
+func relevantHyps(hyps []Term, goal Term) []Term {
+	type hinfo struct {
+		syms []string
+	}
+	infos := make([]hinfo, len(hyps))
+	any := false
+	for i, h := range hyps {
+		if strings.Contains(h.S, "@h") {
+			infos[i].syms = havocSymRe.FindAllString(h.S, -1)
+			if len(infos[i].syms) > 0 {
+				any = true
+			}
+		}
+	}
+	if !any {
+		return hyps
+	}
+	reach := map[string]bool{}
+	for _, s := range havocSymRe.FindAllString(goal.S, -1) {
+		reach[s] = true
+	}
+	keep := make([]bool, len(hyps))
+	for i := range hyps {
+		// only the frame axioms emitted by havoc (forall j!h ...) are candidates for dropping
+		if len(infos[i].syms) == 0 || !strings.HasPrefix(hyps[i].S, "(forall ((j!h Int))") {
+			keep[i] = true
+			for _, s := range infos[i].syms {
+				reach[s] = true
+			}
+		}
+	}
+	// hypotheses without havoc symbols never introduce new ones; those with propagate reachability
+	for changed := true; changed; {
+		changed = false
+		for i := range hyps {
+			if keep[i] || len(infos[i].syms) == 0 {
+				continue
+			}
+			hit := false
+			for _, s := range infos[i].syms {
+				if reach[s] {
+					hit = true
+					break
+				}
+			}
+			if hit {
+				keep[i] = true
+				changed = true
+				for _, s := range infos[i].syms {
+					reach[s] = true
+				}
+			}
+		}
+	}
+	out := make([]Term, 0, len(hyps))
+	for i, h := range hyps {
+		if keep[i] {
+			out = append(out, h)
+		}
+	}
+	return out
 }
